@@ -68,6 +68,8 @@ def c13(ck):
     gen_and_replay(ck, "GenC13", consts, timeout=1500)
     ck.exhaustive = True
     ck.extra["bounds"] = consts
+    # direction B: random COMPOSITIONS of the builtins (up to 10 nested calls), explained by Def/Coll
+    random_programs(ck, 3000 if ck.quick else 60000, 10, seed_offset=1313, mode="coll")
 
 
 def write_ndjson(path, rows):
@@ -187,6 +189,8 @@ def c02(ck):
         ck.extra.setdefault("bounds", {})[fam] = consts
     ck.extra["model_dangerous_histories"] = total_danger
     ck.exhaustive = True
+    # direction B: long random histories with fan-out (every earlier name traced after every step)
+    random_programs(ck, 300 if q else 6000, 8, seed_offset=202, mode="hist")
 
 
 def text_cases(ck, alphabets, maxlen, timeout=1500):
@@ -672,12 +676,12 @@ def c07(ck):
     ck.exhaustive = True
 
 
-def random_programs(ck, n, depth, seed_offset=0):
+def random_programs(ck, n, depth, seed_offset=0, mode="prog"):
     """Direction B for program properties: random typed programs run on the real code, the recorded
     (program, outcome, effect log) validated by TraceDef.tla (Def explains every record)."""
     import os, json
     trace = os.path.join(ck.scratch, "progs.ndjson")
-    ck.harness(["progs", "-n", str(n), "-depth", str(depth), "-seed", str(ck.seed + seed_offset), "-out", trace], timeout=3000)
+    ck.harness(["progs", "-mode", mode, "-n", str(n), "-depth", str(depth), "-seed", str(ck.seed + seed_offset), "-out", trace], timeout=3000)
     t = ck.tlc("TraceDef", "SPECIFICATION Spec\nCHECK_DEADLOCK FALSE\n", env={"VERIF_TRACE": trace}, want_cases=False,
                timeout=3000, heap="12g")
     if t.exit != 0:
@@ -692,7 +696,7 @@ def random_programs(ck, n, depth, seed_offset=0):
     rows = None
     ck.traces_validated += n - abst
     ck.abstained += abst
-    ck.extra["random_programs"] = {"n": n, "depth": depth, "abstained": abst, "rejected": len(rej)}
+    ck.extra["random_" + mode] = {"n": n, "depth": depth, "abstained": abst, "rejected": len(rej)}
     if rej:
         rows = [json.loads(l) for l in open(trace)]
     for line in rej[:30]:
@@ -704,11 +708,12 @@ def random_programs(ck, n, depth, seed_offset=0):
                             "allow": {"k": "see-TraceDef"}}, "observed": rec["obs"]})
     # binding self-test
     def mut(rows_):
-        for r_ in rows_:
+        hit = False
+        for r_ in rows_:      # every record loses its last effect; the oracle abstains on some of them
             if r_["obs"]["eff"]:
                 r_["obs"]["eff"] = r_["obs"]["eff"][:-1]
-                return True
-        return False
+                hit = True
+        return hit
     import json as _j
     rws = [_j.loads(l) for l in open(trace)][:200]
     if mut(rws):
